@@ -331,3 +331,10 @@ Example C13_parsers_are_source_inhabited :
   | _ => false
   end = true.
 Proof. vm_compute. repeat split; reflexivity. Qed.
+
+(* the descriptor loops the table parsers above call parse_descriptors: it and 21 of its 23 body parsers are the source as well.
+   The statement is Proofs/PsiGenDesc2.descriptor_parsers_tie, spelled out as C14_loop_is_source in Props/C14.v. *)
+Require Import Proofs.PsiGenDesc2.
+Theorem C13_descriptors_are_source : descriptor_parsers_tie.
+Proof. exact descriptor_loop_is_source. Qed.
+Print Assumptions C13_descriptors_are_source.
